@@ -39,3 +39,53 @@ theorem validUtf8_of_ascii (bs : Bytes) (h : ∀ b ∈ bs, b < 128) : validUtf8 
   rw [ByteArray.validateUTF8_eq_true_iff]
   have := isValidUTF8_of_ascii_rev bs.reverse (fun b hb => h b (by simpa using hb))
   simpa using this
+
+/-- the character of an ASCII byte -/
+theorem ascii_char (x : UInt8) (hx : x < 128) :
+    ∃ c : Char, c.utf8Size = 1 ∧ c.toUInt8 = x := by
+  have hlt : x.toNat < 128 := by have := UInt8.lt_iff_toNat_lt.mp hx; simpa using this
+  let c : Char := Char.ofNat x.toNat
+  have hcval : c.val.toNat = x.toNat := by
+    simp only [c, Char.ofNat]
+    have : x.toNat.isValidChar := by left; omega
+    simp [this, Char.ofNatAux]
+  refine ⟨c, ?_, ?_⟩
+  · simp only [Char.utf8Size]
+    have : c.val ≤ 127 := by
+      apply UInt32.le_iff_toNat_le.mpr; rw [hcval]; simp; omega
+    simp [this]
+  · show c.val.toUInt8 = x
+    apply UInt8.toNat_inj.mp
+    rw [UInt32.toNat_toUInt8, hcval]
+    omega
+
+/-- an ASCII byte in front neither makes nor breaks validity -/
+theorem isValidUTF8_ascii_cons_iff (x : UInt8) (hx : x < 128) (rest : List UInt8) :
+    (ByteArray.mk (x :: rest).toArray).IsValidUTF8 ↔ (ByteArray.mk rest.toArray).IsValidUTF8 := by
+  obtain ⟨c, hc1, hcu⟩ := ascii_char x hx
+  have henc : [c].utf8Encode = ByteArray.mk #[x] := by
+    rw [List.utf8Encode_singleton, String.utf8EncodeChar_eq_singleton hc1]
+    have : c.val.toUInt8 = x := hcu
+    rw [this]
+    rfl
+  have hcons : ByteArray.mk (x :: rest).toArray = [c].utf8Encode ++ ByteArray.mk rest.toArray := by
+    rw [henc]
+    apply ByteArray.ext
+    simp
+  rw [hcons]
+  exact ByteArray.isValidUTF8_utf8Encode_singleton_append_iff
+
+/-- an ASCII prefix neither makes nor breaks UTF-8 validity of what follows -/
+theorem validUtf8_ascii_append (A B : Bytes) (hA : ∀ b ∈ A, b < 128) : validUtf8 (A ++ B) = validUtf8 B := by
+  induction A with
+  | nil => rfl
+  | cons x xs ih =>
+    have hx : x < 128 := hA x (by simp)
+    have ih' := ih (fun b hb => hA b (by simp [hb]))
+    rw [← ih']
+    unfold validUtf8
+    have := isValidUTF8_ascii_cons_iff x hx (xs ++ B)
+    rw [← ByteArray.validateUTF8_eq_true_iff, ← ByteArray.validateUTF8_eq_true_iff] at this
+    simp only [List.cons_append]
+    cases h1 : (ByteArray.mk (x :: (xs ++ B)).toArray).validateUTF8 <;>
+      cases h2 : (ByteArray.mk (xs ++ B).toArray).validateUTF8 <;> simp_all
